@@ -315,7 +315,7 @@ func warmPacker(allow []string, dir string) *slug.Packer {
 
 var hostileNames = []string{"nx/../l2/evil", "/l", "/a/l", "/a/b/l2", "a\\b", "..\\x", "t", "a/b/t", "s/a", "d", "s", "a", "b", "a/x", "a/b/y", "l", "l/x", "l2", "l2/x", "../dst-evil/x", "../victim", "nx/../l/x", "nx/../../victim",
 	"/a", "a/", "./a", "a//x", ".", "", "..", "/", "//", "///", "/.", "a/../b", "a/../../dst-evil/x", "l/../x", "b/", "/l/x", "x"}
-var hostileTargets = []string{"l/..", "l2/..", "../w/dst/a", "../../w/dst/a", "../w/dst/../victim", "../..", "s/a/..", "a/b/t/..", "../../etc/cfg", "a", "b", ".", "..", "a/..", "../dst-evil", "../victim", "a/../victim", "/w/victim", "/secret", "l", "l2", "a/b", "../dst", "../dst/a", "nx", "./b", "a/../../dst-evil", "../dst-evil/x"}
+var hostileTargets = []string{"../DST/a", "../../w/DST/a", "../Dst", "l/..", "l2/..", "../w/dst/a", "../../w/dst/a", "../w/dst/../victim", "../..", "s/a/..", "a/b/t/..", "../../etc/cfg", "a", "b", ".", "..", "a/..", "../dst-evil", "../victim", "a/../victim", "/w/victim", "/secret", "l", "l2", "a/b", "../dst", "../dst/a", "nx", "./b", "a/../../dst-evil", "../dst-evil/x"}
 
 func genHostileEntries(rng *Rng) []EntrySpec {
 	if rng.Chance(35) {
@@ -704,17 +704,24 @@ func refUnpack(init map[string]SnapEntry, dstRel string, es []EntrySpec) (map[st
 func coqNode(n *TNode) string {
 	switch n.Kind {
 	case "file":
-		return fmt.Sprintf("(File %s %d%%N %s)", coqStr(n.Data), n.Perm, coqMtime(n.Mtime, n.MtimeN))
+		return fmt.Sprintf("(File %s %d%%N %s)", coqStr(n.Data), n.Perm, coqMtimeOf(n))
 	case "dir":
 		var ks []string
 		for _, k := range sortedKids(n) {
 			ks = append(ks, "("+coqStr(k)+", "+coqNode(n.Kids[k])+")")
 		}
-		return fmt.Sprintf("(Dir %d%%N %s %s)", n.Perm, coqMtime(n.Mtime, n.MtimeN), coqList(ks))
+		return fmt.Sprintf("(Dir %d%%N %s %s)", n.Perm, coqMtimeOf(n), coqList(ks))
 	case "link":
 		return "(Link " + coqStr(n.Target) + ")"
 	}
 	return "(Special 1%N)"
+}
+
+func coqMtimeOf(n *TNode) string {
+	if n.MtimeSet {
+		return fmt.Sprintf("(Some (%d)%%Z)", n.Mtime*1000000000+n.MtimeN)
+	}
+	return coqMtime(n.Mtime, n.MtimeN)
 }
 
 // model times are nanoseconds since the epoch; (0, 0) = not set / kernel-set
@@ -736,7 +743,7 @@ func snapToTree(s map[string]SnapEntry) *TNode {
 	sort.Strings(keys)
 	for _, k := range keys {
 		e := s[k]
-		n := &TNode{Kind: e.Kind, Perm: e.Perm, Mtime: e.MtimeS, MtimeN: e.MtimeN, Target: e.Target, Data: e.Data}
+		n := &TNode{Kind: e.Kind, Perm: e.Perm, Mtime: e.MtimeS, MtimeN: e.MtimeN, MtimeSet: true, Target: e.Target, Data: e.Data}
 		if e.Kind == "special" {
 			n.Kind = "fifo"
 		}
@@ -940,6 +947,31 @@ func runUnpackCase(c *UnpackCase, work string) (*UnpackObs, []Violation) {
 				vs = append(vs, viol("C02", "well-formed archive rejected: "+resp.Err))
 			} else {
 				vs = append(vs, compareRef(want, obs.FinalDst)...)
+			}
+		}
+	}
+	// ---- C12: an Unpack that returns success has materialised every entry (the last one for each path) ----
+	if resp.Err == "" && !c.Hostile && c.FailAt < 0 && c.WriteLimit == 0 {
+		last := map[string]int{}
+		clean := func(n string) string { return strings.Trim(path.Clean("/"+n), "/") }
+		for i, e := range obs.Decoded {
+			last[clean(e.Name)] = i
+		}
+		for i, e := range obs.Decoded {
+			p := clean(e.Name)
+			if p == "" || last[p] != i {
+				continue
+			}
+			g, ok := obs.FinalDst[p]
+			switch e.Type {
+			case "2":
+				if !ok || g.Kind != "link" || g.Target != e.Link {
+					vs = append(vs, viol("C12", fmt.Sprintf("Unpack returned success but the link entry %q -> %q was not materialised (found %v)", e.Name, e.Link, g)))
+				}
+			case "0", "\x00":
+				if !ok || g.Kind != "file" {
+					vs = append(vs, viol("C12", fmt.Sprintf("Unpack returned success but the file entry %q was not materialised (found %v)", e.Name, g)))
+				}
 			}
 		}
 	}
@@ -1206,5 +1238,8 @@ func corpusUnpack() []*UnpackCase {
 		good(dir("empty/")),                                                    // D4: empty directory
 		good(dir("d/"), reg("d/f", "x"), dir("e/")),                            //
 		good(lnk("k", "c.txt"), reg("k", "via-link")),                          // D3 benign form: file entry after a link of the same name
+		good(reg("cur", "v1"), lnk("cur", "v2.txt")),                           // a link entry for a path that holds a file: refused, never skipped
+		good(lnk("cur", "v1.txt"), lnk("cur", "v2.txt")),                       // ... or another link
+		good(reg("old", "x"), EntrySpec{Name: "epoch", Type: "0", Mode: 0o644, Mtime: 0, Body: "e"}, EntrySpec{Name: "ed/", Type: "5", Mode: 0o755, Mtime: 0}),
 	}...)
 }
